@@ -30,6 +30,11 @@ def exec_in(it, frame, src):
         it.spec_mode = saved
 
 
+_MUTATORS = frozenset(('append', 'extend', 'insert', 'remove', 'pop', 'clear', 'sort', 'reverse', 'setdefault',
+                       'update', 'popitem', 'add', 'discard', 'appendleft', 'popleft',
+                       'intersection_update', 'difference_update', 'symmetric_difference_update'))
+
+
 def havoc_var(it, frame, name, how):
     p = it.p
     if isinstance(how, tuple) and how[0] in ('recompute', 'assign_dict'):
@@ -176,7 +181,7 @@ def _run_loop_with_spec(it, node, frame, spec, kind, iterable=None):
     mentioned = ' '.join(str(s) for s in getattr(spec, 'havoc_stmts', ())) + ' ' + \
         ' '.join(e for _, e in invariants) + ' ' + ' '.join(str(h) for h in spec.havoc.values())
     targets = {n.id for n in ast.walk(node.target) if isinstance(n, ast.Name)} if kind == 'for' else set()
-    assigned, self_attrs = set(), set()
+    assigned, self_attrs, mutated = set(), set(), set()
 
     def _scan(n):
         if isinstance(n, (ast.FunctionDef, ast.Lambda, ast.ClassDef)):
@@ -186,6 +191,13 @@ def _run_loop_with_spec(it, node, frame, spec, kind, iterable=None):
         if isinstance(n, ast.Attribute) and isinstance(n.ctx, ast.Store) and isinstance(n.value, ast.Name) \
                 and n.value.id == 'self':
             self_attrs.add(n.attr)
+        # a local container mutated in place (`d[k] = v`, `del d[k]`, `d.setdefault(..)`, `l.append(..)`) is
+        # assigned as far as the frame is concerned (seed R5_C09: a dict filled across iterations)
+        if isinstance(n, ast.Subscript) and isinstance(n.ctx, (ast.Store, ast.Del)) and isinstance(n.value, ast.Name):
+            mutated.add(n.value.id)
+        if isinstance(n, ast.Call) and isinstance(n.func, ast.Attribute) and isinstance(n.func.value, ast.Name) \
+                and n.func.attr in _MUTATORS:
+            mutated.add(n.func.value.id)
         for c in ast.iter_child_nodes(n):
             _scan(c)
     for s_ in node.body:
@@ -197,6 +209,18 @@ def _run_loop_with_spec(it, node, frame, spec, kind, iterable=None):
         cur, bound = frame.lookup(name)
         if bound and name in frame.locals:
             frame.locals[name] = Opaque('%s: value from an earlier iteration (not in the havoc list)' % name)
+    from .values import ListVal, DictVal, SetVal, HList
+    for name in sorted(mutated - assigned - targets - set(spec.havoc) - {g[0] for g in spec_ghost}):
+        if name.startswith('_') or name in mentioned.split() or ('(%s' % name) in mentioned or (name + ',') in mentioned:
+            continue
+        if name in frame.locals and isinstance(frame.locals[name], DictVal):
+            # arbitrary contents at the head of an arbitrary iteration: presence of a key is unknown, a value found
+            # is one from an earlier iteration (usable only by passing it on) -- the rule of `havoc_dict_attr`
+            class _Holder(object):
+                fields = {name: frame.locals[name]}
+            it.spec_prelude['havoc_dict_attr'].fn(it, [_Holder, name], {})
+        elif name in frame.locals and isinstance(frame.locals[name], (ListVal, SetVal, HList)):
+            frame.locals[name] = Opaque('%s: container mutated in an earlier iteration (not in the havoc list)' % name)
     me_, has_self = frame.lookup('self')
     if has_self and isinstance(me_, Obj):
         for attr in sorted(self_attrs):
